@@ -321,9 +321,13 @@ META = {
                    "object and meter and is itself untouched, otherwise no bar is opened; the item goes into that bar exactly "
                    "when it fits (coded test, float-as-real) as one entry [the bar's beat, value, the item], and a refusal "
                    "changes nothing but the (known finding) opened bar; Instrument.note_in_range is exactly 'range low <= "
-                   "pitch <= range high' for arbitrary range notes and note (through the proved Note comparison contracts).",
+                   "pitch <= range high' for arbitrary range notes and note (through the proved Note comparison contracts); "
+                   "can_play_notes of a container (0..4 notes, any order) is true exactly when EVERY note is inside the range; "
+                   "set_range keeps given Notes, builds Notes from names and refuses anything else; Track.add_bar and "
+                   "Composition.add_track append exactly the given object to a list of ANY length.",
         level_note=TB,
-        explanation="Deductive: Track.add_notes (2 item kinds), Instrument.note_in_range. Bounded: bounded/drivers/C14.py (166k cases quick). Repaired in /repo: "
+        explanation="Deductive: Track.add_notes (2 item kinds), add_bar, __len__, Composition.add_track / __len__ / empty / set_title / "
+                    "set_author, Instrument.note_in_range / can_play_notes / set_range, NoteContainer.__eq__. Bounded: bounded/drivers/C14.py (166k cases quick). Repaired in /repo: "
                     "rest with instrument, Guitar.can_play_notes, Composition.__eq__, container == rest.",
     ),
     "C15": dict(
